@@ -23,9 +23,11 @@
 //! 1. OPT whose option RDATA is malformed, OPT/TSIG whose owner cannot be
 //!    parsed, TSIG whose RDATA is malformed: not in C08's list, RCODE not
 //!    prescribed (`ANY`); C09 still demands the OPT in the response.
-//! 2. Two prescribed problems at the same OPT record (version != 0 together
-//!    with a non-root owner, or either with malformed options): the statements
-//!    do not order them; FORMERR and BADVERS are both accepted.
+//! 2. Two prescribed problems at the same OPT record: a non-root owner
+//!    precedes the version (TTL field) in message order, so owner-not-root
+//!    together with version != 0 must give FORMERR (tightened after seeded
+//!    change C09 was missed). Either of them together with malformed options
+//!    (not a prescribed problem): FORMERR or the prescribed code.
 //! 3. (Withdrawn.) A TSIG TTL field is not a TTL to be clamped: RFC 8945 §4.2
 //!    requires the field to be zero, so every non-zero value, 0x80000000 and
 //!    0xffffffff included, must give FORMERR at the TSIG record (this was a
@@ -339,7 +341,13 @@ fn scan_one(msg: &[u8], cfg: &ScanCfg, ch: Choices, used: &mut Used) -> Scan {
                     if nonroot {
                         allowed |= FORMERR;
                     }
-                    if version != 0 {
+                    // Message order decides between two problems of one OPT
+                    // record: the owner field precedes the TTL field that
+                    // carries the version, so a non-root owner is the first
+                    // problem and must give FORMERR whatever the version
+                    // ("FORMERR is never replaced"; BADVERS may only win when
+                    // it is detected earlier in the message).
+                    if version != 0 && !nonroot {
                         allowed |= BADVERS;
                     }
                     if rdata_bad {
